@@ -22,6 +22,7 @@ type c14Case struct {
 	NumByte  int    `json:"num_byte,omitempty"`
 	Both     bool   `json:"both"` // run the parallel twin as well (after the sequential run did not crash)
 	Prior    int    `json:"prior_healthy_bytes,omitempty"` // history: an earlier single-shot detection of this many bytes on a healthy source
+	PriorWF  string `json:"prior_workflow,omitempty"`      // history for the workflows: which detection ran dry (after Prior zero bytes) earlier in this process ("" = the parallel twin)
 }
 
 func checkC14(c c14Case) (Outcome, error) {
@@ -57,12 +58,15 @@ func checkC14(c c14Case) (Outcome, error) {
 	}
 	w := workflows[c.Workflow]
 	what := fmt.Sprintf("%s on a source repeating the %d-byte tile %s", c.Workflow, len(tile), c.Tile)
-	if c.Prior > 0 && w.SampleBytes <= 2500 {
-		// history: an earlier parallel detection in this process ended on a read error (a source that ran dry)
-		out.Classes = append(out.Classes, "after-a-failed-call")
-		pr := callWatched(func() (bool, error) { return w.Fast(gen.NewReader(make([]byte, c.Prior))) }, time.Minute)
-		if pr.Hung {
-			return out, violation("hang", "%s: the preparatory call on a %d-byte source never returned", what, c.Prior)
+	if c.Prior > 0 {
+		// history: an earlier detection in this process ended on a read error (a source that ran dry)
+		name := c.PriorWF
+		if name == "" {
+			name = c.Workflow + "+fast"
+		}
+		out.Classes = append(out.Classes, "after-a-failed-call", "after-a-failed-call:"+name)
+		if priorCall(name, make([]byte, c.Prior)) {
+			return out, violation("hang", "%s: the preparatory %s call on a %d-byte source never returned", what, name, c.Prior)
 		}
 	}
 	res := callWatched(func() (bool, error) { return w.Seq(mk()) }, 60*time.Minute)
@@ -189,8 +193,9 @@ func genC14(t *rapid.T) c14Case {
 		return c
 	}
 	c.TileKind, c.Tile = drawTile(t)
-	if c.Workflow == "period" && rapid.IntRange(0, 3).Draw(t, "history") == 0 {
+	if rapid.IntRange(0, 2).Draw(t, "history") == 0 {
 		c.Prior = rapid.SampledFrom([]int{1, 2499, 2500, 30000}).Draw(t, "prior_bytes")
+		c.PriorWF = rapid.SampledFrom(priorWorkflows).Draw(t, "prior_workflow")
 	}
 	return c
 }
@@ -208,6 +213,11 @@ func TestC14Enum(t *testing.T) {
 			tile[bit/8] = 0x80 >> uint(bit%8)
 			cases = append(cases, c14Case{Workflow: "poweron", Tile: hex.EncodeToString(tile), TileKind: "sparse", Both: bit == 3})
 		}
+		// a 10^6-bit-sample detection right after a 20000-bit-sample one that ran dry (small buffers first, large ones next), and the reverse
+		cases = append(cases, c14Case{Workflow: "poweron", Tile: "5a", TileKind: "constant", Prior: 2499, PriorWF: "period"},
+			c14Case{Workflow: "poweron", Tile: "00ff", TileKind: "alternating", Prior: 30000, PriorWF: "period+fast", Both: true},
+			c14Case{Workflow: "period", Tile: "c3", TileKind: "constant", Prior: 30000, PriorWF: "poweron", Both: true},
+			c14Case{Workflow: "period", Tile: "0f", TileKind: "constant", Prior: 1, PriorWF: "factory+fast", Both: true})
 		part, parts := envInt("VERIF_PART", 0), envInt("VERIF_PARTS", 1)
 		var mine []c14Case
 		for i, c := range cases {
